@@ -546,8 +546,27 @@ def cmd_compile(args, out):
                             dont_inherit=True,
                             optimize=it.get("optimize", -1),
                         )
-                write_pyc(co, it["pyc"], it.get("mtime", 0), len(src), it.get("pyc_flags", 0),
-                          src if isinstance(src, bytes) else src.encode("utf-8", "surrogatepass"), it.get("marshal_version"))
+                if it.get("inline_dumps"):
+                    # marshal the code object while nothing else refers to it: its reference count is then 1, marshal does not
+                    # flag it, and the first slot of the reference table goes to some later object (what a third-party
+                    # writer produces with marshal.dumps(compile(...)))
+                    del co
+                    if PY2:
+                        payload = marshal.dumps(compile(src, fname, "exec", 0, True))
+                    else:
+                        payload = marshal.dumps(compile(src, fname, "exec", dont_inherit=True, optimize=it.get("optimize", -1)))
+                    co = marshal.loads(payload)
+                    with open(it["pyc"], "wb") as f:
+                        f.write(magic_bytes())
+                        if PYV >= (3, 7):
+                            f.write(struct.pack("<I", 0))
+                        f.write(struct.pack("<I", 1))
+                        if PYV >= (3, 3):
+                            f.write(struct.pack("<I", len(src) & 0xFFFFFFFF))
+                        f.write(payload)
+                else:
+                  write_pyc(co, it["pyc"], it.get("mtime", 0), len(src), it.get("pyc_flags", 0),
+                            src if isinstance(src, bytes) else src.encode("utf-8", "surrogatepass"), it.get("marshal_version"))
             with open(it["pyc"], "rb") as f:
                 data = f.read()
             hl = it.get("header_len", header_len())
